@@ -407,6 +407,67 @@ void h_Susc_ctor(void)
   REACH("exit");
 }
 
+/* ---- copy constructor (Susceptibility.h "Copy-constructor. \param[in] Chi Susceptibility object to be copied."; a copy is an
+ * independent object in the same state): every scalar member equals the source's -- Status, Vanishing, SubtractDisconnected, ave_A,
+ * ave_B (each its own post-condition), beta, MatsubaraSpacing (given the Thermal invariant I*pi/beta of the source) --, the references
+ * refer to the same objects, and the parts are deep-copied: one `new SusceptibilityPart(**iter)` per source part, in order, each
+ * appended to the copy's own list (monitor + ghost position of the SOURCE list: copied exactly once).
+ * TRUSTED: the implicit copy constructor of ComputableObject copies Status (its only member); the model asserts that the object
+ * handed to it is the source.  Handles of the copied parts: &g_copy_parts[0] + ordinal.  The copy of ONE part is opaque. */
+struct SusceptibilityPart g_copy_parts[1];
+long g_copies;                    /* copies made of the source part at the ghost position */
+#define ComputableObject_ctor1(base_, src_) ({ \
+  __CPROVER_assert((void *)(src_) == (void *)Chi, "ComputableObject(const ComputableObject&): the object copied is the source Chi"); \
+  (void)(self->Status = Chi->Status); })
+static inline struct SusceptibilityPart *SuscPart_copy_monitor(PartList *src, struct SusceptibilityPart *from)
+{
+  long k = src->last_pos;
+  __CPROVER_assert(0 <= k && k < (long)src->n && from == src->items[k], "C14 copy: the part copied is the source-list element the iterator is on");
+  __CPROVER_assert((unsigned long)k == g_n_new, "C14 copy: one new part per source part, in order");
+  if (k == src->gidx) g_copies++;
+  g_last_new = &g_copy_parts[0] + g_n_new;
+  g_n_new++;
+  REACH("copy_part");
+  return g_last_new;
+}
+#define SusceptibilityPart_new1(from_) SuscPart_copy_monitor(&Chi->parts, (from_))
+//@function Pomerol::Susceptibility::Susceptibility(Pomerol::Susceptibility const&) as Susceptibility_ctor1
+//@contract
+__CPROVER_requires(__CPROVER_is_fresh(self, sizeof(*self)) && __CPROVER_is_fresh(Chi, sizeof(*Chi)))
+__CPROVER_requires(PartList_wf(&Chi->parts))
+__CPROVER_requires(C_SAME(Chi->MatsubaraSpacing, op_div_cplx_double(op_mul_cplx_double(I, 3.14159265358979323846), Chi->beta)))
+__CPROVER_requires(g_n_new == 0 && g_copies == 0)
+__CPROVER_assigns(*self, Chi->parts.last_pos, g_n_new, g_last_new, g_copies)
+__CPROVER_ensures(self->Status == Chi->Status)
+__CPROVER_ensures(!self->Vanishing == !Chi->Vanishing && !self->SubtractDisconnected == !Chi->SubtractDisconnected)
+__CPROVER_ensures(C_SAME(self->ave_A, Chi->ave_A))
+__CPROVER_ensures(C_SAME(self->ave_B, Chi->ave_B))
+__CPROVER_ensures(D_SAME(self->beta, Chi->beta) && C_SAME(self->MatsubaraSpacing, Chi->MatsubaraSpacing))
+__CPROVER_ensures(self->S == Chi->S && self->H.nblocks == Chi->H.nblocks && self->DM.nblocks == Chi->DM.nblocks && D_SAME(self->DM.beta, Chi->DM.beta))
+__CPROVER_ensures(self->A.ghost_id == Chi->A.ghost_id && self->B.ghost_id == Chi->B.ghost_id && self->A.Status == Chi->A.Status && self->B.Status == Chi->B.Status)
+__CPROVER_ensures(self->A.LeftRightBlocks.left.e == Chi->A.LeftRightBlocks.left.e && self->B.LeftRightBlocks.right.e == Chi->B.LeftRightBlocks.right.e)
+/* deep copy of the parts: as many as the source has, all new (the last one stored is the last one created), the source part at the
+ * ghost position copied exactly once; source list unchanged */
+__CPROVER_ensures(self->parts.n == Chi->parts.n && g_n_new == Chi->parts.n && Chi->parts.n == __CPROVER_old(Chi->parts.n))
+__CPROVER_ensures(self->parts.n > 0 ==> self->parts.last == &g_copy_parts[0] + (self->parts.n - 1))
+__CPROVER_ensures(g_copies == (Chi->parts.gidx >= 0 ? 1 : 0))
+//@loop 1
+__CPROVER_assigns(iter.pos, self->parts.n, self->parts.last, Chi->parts.last_pos, g_n_new, g_last_new, g_copies)
+__CPROVER_loop_invariant(iter.l == &Chi->parts && 0 <= iter.pos && iter.pos <= (long)Chi->parts.n)
+__CPROVER_loop_invariant(self->parts.n == (unsigned long)iter.pos && g_n_new == (unsigned long)iter.pos)
+__CPROVER_loop_invariant(iter.pos > 0 ==> self->parts.last == &g_copy_parts[0] + (iter.pos - 1))
+__CPROVER_loop_invariant(g_copies == ((Chi->parts.gidx >= 0 && iter.pos > Chi->parts.gidx) ? 1 : 0))
+__CPROVER_decreases((long)Chi->parts.n - iter.pos)
+//@end
+
+//@harness h_Susc_copy enforce=Susceptibility_init1 props=C14 min_obl=832 timeout=120 reach=2
+void h_Susc_copy(void)
+{
+  struct Susceptibility *chi, *src;
+  Susceptibility_init1(chi, src);
+  REACH("exit");
+}
+
 //@harness h_Susc_call_z enforce=Susceptibility_call_z props=C14 min_obl=491 timeout=120 reach=2
 void h_Susc_call_z(void) { struct Susceptibility *chi; cplx z; Susceptibility_call_z(chi, z); REACH("exit"); }
 
@@ -442,7 +503,10 @@ void h_Susc_of_tau(void) { struct Susceptibility *chi; double tau; Susceptibilit
  *   of the two EnsembleAverage objects after prepare() (A first) / <A>, <B> of the susceptibility's own operators with its own S, H, DM;
  *   if an average cannot be prepared (operator not prepared) the exception leaves the three members unchanged.
  *   EnsembleAverage is a contract stub (TRUSTED: prepare() idempotent, result = opaque <Op>); EnsembleAverage.cpp is not under contract here.
- * NOT covered: Susceptibility::compute (status logic + one compute() per part), copy constructor, destructor.
+ * h_Susc_copy (copy constructor): Status, Vanishing, SubtractDisconnected, ave_A, ave_B, beta, MatsubaraSpacing of the copy = the source's;
+ *   same S, H, A, B, DM; one `new SusceptibilityPart(*source part)` per source part, in order, appended to the copy's own list; ghost position
+ *   of the source list copied exactly once; sizes equal.  TRUSTED: implicit ComputableObject copy copies Status; the copy of ONE part is opaque.
+ * NOT covered: Susceptibility::compute (status logic + one compute() per part), destructor.
  *
  * MUTANTS (scratch copy of /repo, re-extracted; obligation that failed)
  *   prepare: drop `|| isRetained(Aright)`   -> Susceptibility_prepare.loop_invariant_step.5 (ghost pair not created)
@@ -452,6 +516,8 @@ void h_Susc_of_tau(void) { struct Susceptibility *chi; double tau; Susceptibilit
  *            parts.size() > 1                  -> Susceptibility_prepare.postcondition.6 (Vanishing <=> no part)
  *            B.getPartFromLeftIndex(Bleft)     -> FieldOperator_getPartFromLeftIndex.assertion.1, SusceptibilityPart_new6.assertion.5
  *   ctor:    Vanishing(false) -> postcondition.1;  A(B),B(A) -> postcondition.4
+ *   copy:    ave_B(Chi.ave_A) -> Susceptibility_init1.postcondition.4;  ComputableObject() -> postcondition.1;  SubtractDisconnected(false) -> postcondition.2
+ *            A(Chi.B),B(Chi.A) -> postcondition.7/.8;  parts.push_back(*iter) (shallow) -> PartList_push_back.assertion.1
  *   call_z:  subtraction at every z -> postcondition.3;  `-=` -> `+=` -> postcondition.3;  if(Vanishing) -> postcondition.1/.2
  *   call_n:  2n+1 -> SusceptibilityPart_call.assertion.2 (every part is evaluated at z), postcondition.2
  *   of_tau:  extra *beta -> postcondition.3;  `Value -= part` -> accumulator != model (loop invariant)
